@@ -20,6 +20,7 @@ let c05_event (tok : string) : unit event =
   | 'D' -> EvDetectOn
   | 'T' -> EvHoldTimer
   | 'g' -> EvDrag (nat_of_int (int_of_string rest))
+  | 'u' -> EvApiUpload ([], rest = "1")   (* UploadFiles API; the paths themselves are never observable *)
   | _ -> failwith "event"
 
 let c05_obs = function
@@ -36,6 +37,10 @@ let () =
       let obs = corr_run (c05_exists ex) (fun c -> List.mem c zset) (bytes_of_hex mon) (bytes_of_hex moff) o
           (c05_flag flags 5) (List.map c05_event (split_on ',' evs)) in
       if obs = [] then "-" else String.concat "," (List.map c05_obs obs)
+    | _ -> "?args");
+  register "c05_window" (function [w; cs] ->
+      let (shown, n) = FilterDet.c05_window (bool_of w) (chunks_of cs) in
+      hex_of_chunks shown ^ "|" ^ string_of_int (int_of_nat n)
     | _ -> "?args");
   register "c05_osc52" (function [cs] ->
       let (seq, clips) = List.fold_left (fun (seq, acc) c ->
